@@ -452,6 +452,8 @@ def call_arrmeth(ex, a, name, args, kw):
         if args and isinstance(args[0], BI) and args[0].n == 'str':
             return StrArr(a)
         d = as_dtype(args[0] if args else kw.get('dtype'))
+        if kw.get('copy') is False and d.kind == a.kind and (d.name == (a.np_dtype or a.kind) or d.name == d.kind):
+            return a          # astype(..., copy=False) returns the array itself when no conversion is needed
         out = copy(a, d.kind)
         out.np_dtype = d.name
         if d.kind == 'bool' and a.kind != 'bool':
@@ -519,7 +521,16 @@ def _arr(ex, x):
     raise Unsupported(f'array from {x!r}')
 
 
-@ext('numpy.array', 'numpy.asarray')
+@ext('numpy.asarray')
+def np_asarray(ex, x, dtype=None, **kw):
+    """no copy when the input already is an ndarray of the requested dtype kind"""
+    d = as_dtype(dtype)
+    if isinstance(x, Arr) and (d is None or d.kind == x.kind):
+        return x
+    return np_array(ex, x, dtype=dtype)
+
+
+@ext('numpy.array')
 def np_array(ex, x, dtype=None, **kw):
     from .interp import Obj as _O
     d = as_dtype(dtype)
@@ -1359,3 +1370,13 @@ def sg_sosfreqz(ex, sos, worN=512, whole=False, fs=None):
     ex.__dict__.setdefault('freqz', []).append(H)
     w = Arr([worN], lambda idx: z3.Function(f'freqz_w!{k}', z3.IntSort(), z3.RealSort())(tonum(idx[0])), 'float')
     return (w, H)
+
+
+@ext('numpy.cumsum')
+def np_cumsum(ex, a, axis=None, **kw):
+    """running sum: only its shape/kind is modelled (elements are unconstrained reals); enough for phase terms that enter through exp(j*phase)"""
+    a = _arr(ex, a)
+    if a.ndim != 1 or a.kind == 'complex':
+        raise Unsupported('cumsum of nd / complex arrays')
+    f = z3.Function(f'cumsum!{next(ex.fresh)}', z3.IntSort(), z3.RealSort() if a.kind == 'float' else z3.IntSort())
+    return Arr(a.shape, lambda idx: f(tonum(idx[0])), a.kind)
